@@ -135,7 +135,7 @@ def h_rendezvous(ctx, plan):
   ctx.witness('done')
 
 
-def h_lifecycle(ctx, ndef, plan, in_handler=(), requit=None):
+def h_lifecycle(ctx, ndef, plan, in_handler=(), requit=None, via_event=False):
   """plan letters: G goUp, 0/1 release deferral i, Q quit (via _quit, as quit() does on its helper thread)"""
   pc, core = fresh_core(ctx)
   old_core = pc.core; pc.core = core
@@ -144,7 +144,13 @@ def h_lifecycle(ctx, ndef, plan, in_handler=(), requit=None):
   for name in ('GoingUpEvent', 'UpEvent', 'GoingDownEvent', 'DownEvent'):
     core.addListenerByName(name, lambda e, name=name: log.append(name))
   try:
-    defs = [core._get_go_up_deferral() for _ in range(ndef)]
+    if via_event:
+      # every deferral is taken by its own GoingUp listener through the event's public get_deferral() (independent components deferring the
+      # same going-up), and released later
+      defs = [None] * ndef
+      for k in range(ndef): core.addListenerByName('GoingUpEvent', (lambda e, k=k: defs.__setitem__(k, e.get_deferral())), priority=9 - k)
+    else:
+      defs = [core._get_go_up_deferral() for _ in range(ndef)]
     released = set(); gone_up = False; quit_done = False
     def during_going_up(e):
       # a GoingUp listener that releases deferrals synchronously, while GoingUpEvent is still being dispatched
@@ -207,6 +213,7 @@ def obligations(tier):
       life.append(dict(ndef=nd, plan=p))
   life += [dict(ndef=0, plan='GQ', requit='in_going_down'), dict(ndef=0, plan='GQ', requit='in_going_down_late'), dict(ndef=0, plan='GQ', requit='in_down'),
            dict(ndef=0, plan='GQq'), dict(ndef=1, plan='G0Q', requit='in_going_down'), dict(ndef=1, plan='G0Qq', requit='in_down')]
+  life += [dict(ndef=nd, plan=p, via_event=True) for nd, p in ((1, 'G0'), (1, 'G0Q'), (2, 'G01'), (2, 'G10'), (2, 'G0Q'), (2, 'G10Q'))]
   life += [dict(ndef=1, plan='G', in_handler=(0,)), dict(ndef=2, plan='G1', in_handler=(0,)), dict(ndef=2, plan='1G', in_handler=(0,)),
            dict(ndef=2, plan='G', in_handler=(0, 1)), dict(ndef=1, plan='GQ', in_handler=(0,))]
   BOUNDS[tier] = dict(rendezvous_histories=plans, legend="R register(symbolic name), W call_when_ready(symbolic dependency subset of 3 names, callback "
